@@ -9,7 +9,7 @@ import (
 )
 
 func init() {
-	Register(&Profile{Name: "histories", Prop: "C14", Weight: 10, Quick: 4000, Thorough: 150000, Fn: histories})
+	Register(&Profile{Name: "histories", Prop: "C14", Weight: 10, Quick: 60000, Thorough: 1200000, Fn: histories})
 	SetMeta("C14", &Meta{
 		Level: "exploration",
 		Rule: "seeded random walks of up to 12 (thorough: 20) steps over {damage file f in way w, restore file f, delete / restore recovery file v, Verify, Repair, Repair with double-check} on small fixed worlds (PAR1 and PAR2, 2-4 files) and on random small worlds; the disk is the only state carried between steps. A walk is non-trivial when it contains at least one Repair executed in a damaged state; distinct by the sequence of (operation kind, abstract state class). coverage.states / transitions count distinct abstract states (world id, per-file content hash or 'missing', set of recovery files present) and distinct (state, operation, next state) triples reached over the whole batch: this is sampling of the reachable state graph, not its closure.",
